@@ -21,9 +21,16 @@
        quiet initiator that is behind its responder raises it by one (vi); hence along any
        schedule at most (copies held)*(V+1)^2 steps — in particular handshakes by lagging
        initiators — can raise it (vii).
-   What remains informal is only the reading of "fair": a fair schedule keeps scheduling the pair
-   (a, b) for as long as a is behind b, each such handshake is one of the at most
-   (copies)*(V+1)^2 productive steps, so after that many no initiator is behind any responder.
+     - fair rounds (Rounds.v), closing the argument: a ROUND is any sequence of complete loss-free
+       handshakes; it is FAIR when it contains a handshake a -> b for every ordered pair of distinct
+       nodes.  From every reachable state of a quiet one-cluster world (nobody quarantines or
+       remembers a removed member) with room in every responder's datagram, a fair round started
+       while some node is behind another raises the world potential (viii); hence at most
+       (copies held)*(V+1)^2 fair rounds can start unconverged (ix): after that many fair rounds
+       without a write every node has every other node's max version for every member, and by
+       C02 (exactness up to the frontier) the same key-values.
+   Not covered by a theorem: worlds in which some node quarantines a member (there the statement
+   is false: KF-2 below) and liveness evaluations interleaved with the rounds.
    The whole is exercised by
    the correspondence suite `conv` (fair rounds after arbitrary histories, on the implementation
    and the model) whose monitor checks exactly the two consequences: every fair round of a
@@ -33,7 +40,7 @@
 From Coq Require Import Lia Permutation.
 From ChitchatModel Require Import Base SMap Ids Bytes Params NodeState Stream DeltaWire Message Cluster
   FD Chitchat World SMap_lemmas NodeState_lemmas Builder_lemmas Agreement Inv DeltaRefine Compute_lemmas
-  Prefix_lemmas NodeInv Codec_lemmas Emit_lemmas Truth NodeTruth Weak Reach Progress Quiet Potential GExec Converge.
+  Prefix_lemmas NodeInv Codec_lemmas Emit_lemmas Truth NodeTruth Weak Reach Progress Quiet Potential GExec Converge Rounds.
 
 Section C01.
   Variable zc : bytes -> option bytes.
@@ -262,6 +269,41 @@ Section C01.
     gpot V g <= nsum (map (fun n => N.of_nat (length (cs_nodes (nd_cs n))) * (V + 1) * (V + 1)) (w_nodes (g_w g))).
   Proof. intros strict. exact (gpot_bound zc zc_len strict). Qed.
 
+  (* (viii) FAIR ROUND PROGRESS: in a quiet one-cluster world where some node is behind another, a
+            round of complete loss-free handshakes covering every ordered pair of nodes — in any
+            order, with any shuffles, each responder having room for one header and one operation —
+            raises the world potential *)
+  Theorem C01_fair_round_progress : forall strict V g es g',
+    round_run zc strict g es g' -> fair g es -> unconverged g ->
+    reachable zc strict g -> bounded V g' -> quiet_world g -> one_cluster g ->
+    gpot V g + 1 <= gpot V g'.
+  Proof. intros strict. exact (fair_round_progress zc zc_len strict). Qed.
+
+  (* the same for any sequence of handshakes that merely contains a -> b while a is behind b *)
+  Theorem C01_round_progress : forall strict V g es g', round_run zc strict g es g' ->
+    reachable zc strict g -> bounded V g' -> quiet_world g -> one_cluster g ->
+    forall a b X, behind g a b X -> (exists e, In e es /\ x_a e = a /\ x_b e = b) ->
+    gpot V g + 1 <= gpot V g'.
+  Proof. intros strict. exact (round_progress zc zc_len strict). Qed.
+
+  (* (ix) CONVERGENCE IN BOUNDED MANY FAIR ROUNDS: k consecutive fair rounds each started unconverged
+          raise the potential by k, so k is at most (copies held at the end) * (V+1)^2 *)
+  Theorem C01_unconverged_fair_rounds_raise_potential : forall strict V g k g', lagging_rounds zc strict g k g' ->
+    reachable zc strict g -> bounded V g' -> quiet_world g -> one_cluster g ->
+    gpot V g + N.of_nat k <= gpot V g'.
+  Proof. intros strict. exact (lagging_rounds_bounded zc zc_len strict). Qed.
+
+  Theorem C01_unconverged_fair_rounds_bounded : forall strict V g k g', lagging_rounds zc strict g k g' ->
+    reachable zc strict g -> bounded V g' -> quiet_world g -> one_cluster g ->
+    N.of_nat k <= nsum (map (fun n => N.of_nat (length (cs_nodes (nd_cs n))) * (V + 1) * (V + 1)) (w_nodes (g_w g'))).
+  Proof. intros strict. exact (unconverged_fair_rounds_bounded zc zc_len strict). Qed.
+
+  (* if the potential did not move over a run of handshake steps, nobody's frontier moved *)
+  Theorem C01_unchanged_potential_means_unchanged_frontiers : forall strict V ops g g',
+    forallb xop ops = true -> gfold zc strict g ops = Some g' -> reachable zc strict g -> bounded V g' ->
+    gpot V g = gpot V g' -> world_same g g'.
+  Proof. intros strict V ops g g' Hx Hrun Hr Hb. apply (xrun zc zc_len strict V ops g g' Hx Hrun Hr Hb). Qed.
+
   Theorem C01_strict_advance_raises_measure : forall V c c',
     frontier_lt c c' -> c_max c <= V -> c_max c' <= V -> frontier_measure V c < frontier_measure V c'.
   Proof. exact frontier_measure_lt. Qed.
@@ -292,6 +334,15 @@ Example C01_example :
   | _ => False
   end.
 Proof. vm_compute. split; reflexivity. Qed.
+
+(* ---- non-vacuity of (viii): two nodes, b two versions ahead; one fair round (a->b, b->a); every
+        premise holds in the start state, and the world potential (V = 2) moves from 4 to 8 ---- *)
+Definition fr_ops : list gop := [OJoin (ex_cfg x41) []; OJoin (ex_cfg x42) []; OSet 1 [x6b] [x31]; OSet 1 [x6c] [x32]].
+Definition fr_round : list exch := [mkX 0 1 [] [] []; mkX 1 0 [] [] []].
+Example C01_fair_round_example :
+  exists g0 g1, reachable ex_zc true g0 /\ round_run ex_zc true g0 fr_round g1 /\ fair g0 fr_round /\ unconverged g0 /\
+                quiet_world g0 /\ one_cluster g0 /\ gpot 2 g0 = 4 /\ gpot 2 g1 = 8.
+Proof. apply (fair_round_instance_sound ex_zc true fr_ops fr_round 0 1 (cf_id (ex_cfg x42))). vm_compute. reflexivity. Qed.
 
 (* ---- the known class KF-2 (wasted offer), exhibited: without the quiet premise the progress
         statement is false.  Nodes a (0), b (1), X (2), failure detector with a 100 s dead-node grace
@@ -353,3 +404,9 @@ Print Assumptions C01_world_potential_never_decreases.
 Print Assumptions C01_lagging_exchange_raises_potential.
 Print Assumptions C01_bounded_number_of_productive_steps.
 Print Assumptions C01_world_potential_bound.
+Print Assumptions C01_fair_round_progress.
+Print Assumptions C01_round_progress.
+Print Assumptions C01_unconverged_fair_rounds_raise_potential.
+Print Assumptions C01_unconverged_fair_rounds_bounded.
+Print Assumptions C01_unchanged_potential_means_unchanged_frontiers.
+Print Assumptions C01_fair_round_example.
